@@ -714,10 +714,29 @@ pub fn judge(c: &Case, o: &CaseOut) -> Vec<Violation> {
                 }
             } else {
                 // feeding step: C05's rejection clause + prefix semantics of extend
+                let mut held_override: Option<usize> = None;
                 if let Some(fed) = &o.fed {
                     match (np, fed) {
                         (Some((i, val)), Out::Err(ErrV::NonPositiveValue(w))) if w.to_bits() == val.to_bits() => {
-                            if o.counts.first().copied() != Some(i as u64) {
+                            // the state holds the records that precede the rejected one, or - if
+                            // the failing `extend` call is atomic - those of the earlier calls only
+                            let call_start = match c.style % 3 {
+                                0 => 0,
+                                1 => i,
+                                _ => {
+                                    let h = c.a.len() / 2;
+                                    if i < h {
+                                        0
+                                    } else {
+                                        h
+                                    }
+                                }
+                            };
+                            let got = o.counts.first().copied();
+                            if got == Some(call_start as u64) && call_start != i {
+                                held_override = Some(call_start);
+                            }
+                            if got != Some(i as u64) && got != Some(call_start as u64) {
                                 v.push(Violation::new("C05", &format!("{name}/rejected-record-changed-the-count"), 0, format!("{ctx}: {} records precede the rejected one but the state reports {:?}", i, o.counts)));
                             }
                         }
@@ -756,6 +775,10 @@ pub fn judge(c: &Case, o: &CaseOut) -> Vec<Violation> {
                         )),
                     }
                 }
+                let accepted: &[Bits] = match held_override {
+                    Some(h) => &c.a[..h],
+                    None => accepted,
+                };
                 let raw_nf = accepted.iter().any(|&b| is_nonfinite(c.flt, b));
                 let ts: Vec<f64> = accepted.iter().map(|&b| tval(c.flt, tr, crate::tape::decode(b, c.flt))).collect();
                 let f = facts_of(c.flt, raw_nf, &ts);
